@@ -230,7 +230,10 @@ def run(ctx):
             else:
                 info["raw"] += pr
         if h.get("result") == "ok":
-            em = scrape.emit_all(ctx["idlc"], root, [f["path"] for f in fs["files"]], fs["main"], langs=("c", "cpp", "rust"))
+            # (every other case with --no-typed-objects: the layout of a struct does not depend on how
+            # object types are spelled)
+            em = scrape.emit_all(ctx["idlc"], root, [f["path"] for f in fs["files"]], fs["main"], langs=("c", "cpp", "rust"),
+                                 extra=(["--no-typed-objects"] if k % 2 == 1 else []))
             info["emit_rc"] = {rel: {"%s-%s" % kk: v[0] for kk, v in r.items()} for rel, r in em.items()}
             for f in fs["files"]:
                 stem = os.path.splitext(os.path.basename(f["path"]))[0]
